@@ -59,6 +59,8 @@ type Family struct {
 	// Run replays one case.  hdr holds the non-CASE tagged lines of the same file
 	// (e.g. INSTS).
 	Run func(hdr Header, c any, src string) CaseResult
+	// Describe renders the concrete input of a case for reports about panics and hangs (optional).
+	Describe func(c any) any
 }
 
 var families = map[string]*Family{}
@@ -108,7 +110,7 @@ func runCase(f *Family, hdr Header, c any, src string) (res CaseResult) {
 	go func() {
 		defer func() {
 			if r := recover(); r != nil {
-				done <- CaseResult{Evals: 1, Failures: []Failure{{Kind: "panic", Source: src, Abstract: c, Concrete: c,
+				done <- CaseResult{Evals: 1, Failures: []Failure{{Kind: "panic", Source: src, Abstract: c, Concrete: describeCase(f, c),
 					Expected: "the call returns, with a value or an error", Got: fmt.Sprintf("panic: %v", r),
 					Detail: fmt.Sprintf("%v\n%s", r, debug.Stack())}}}
 			}
@@ -119,10 +121,19 @@ func runCase(f *Family, hdr Header, c any, src string) (res CaseResult) {
 	case r := <-done:
 		return r
 	case <-time.After(caseTimeout):
-		return CaseResult{Evals: 1, Failures: []Failure{{Kind: "hang", Source: src, Abstract: c, Concrete: c,
+		return CaseResult{Evals: 1, Failures: []Failure{{Kind: "hang", Source: src, Abstract: c, Concrete: describeCase(f, c),
 			Expected: "the call returns, with a value or an error", Got: "no result within the deadline",
 			Detail: fmt.Sprintf("no result after %s", caseTimeout)}}}
 	}
+}
+
+func describeCase(f *Family, c any) (out any) {
+	out = c
+	if f.Describe != nil {
+		defer func() { recover() }()
+		out = f.Describe(c)
+	}
+	return out
 }
 
 var (
